@@ -32,6 +32,14 @@ Readings chosen (weakest consistent with the statement)
     order-independent result; anything else is a violation.
   * empty frames have no subframes, so bounds need not be available for them.
 
+Unit representation (cases of kind 'units'): the same physical cascade written with chopper distances in cm / mm /
+km / mixed units, propagate_to / [distance] arguments in another unit than the choppers, windows in ms / us, pulse in
+s / us and nm, and int64 where the numbers are whole.  Every frame of chop(all) / one-by-one / reversed list, the final
+frame via propagate_to in every query unit, two-step propagation through a foreign-unit distance and every lookup
+(before / between / at / beyond choppers, on chop(all) and on the propagated sequence) must (1) report the physical
+distance, (2) be the same set as the all-metres representation (differential, 1e-9), (3) agree with the exact
+reference.  A units case stops at its first violation (the rest is a consequence of the same conversion).
+
 Persistent-object semantics ("any sequence of chop / propagate calls"): every Frame and FrameSequence obtained is
 kept and byte-snapshotted; after every operation all of them must be unchanged (kind earlier_frame_modified /
 earlier_sequence_modified) - deriving a variant must not change the base it was derived from.  A case is aborted at
@@ -62,22 +70,27 @@ RULE = (
     'two-step propagation via 4 intermediate distances, indexing at/between/beyond choppers, array of distances} is '
     'executed; non-trivial = at least one chopper removes part of the pulse and something is transmitted; '
     'states = distinct frames (vertex lists rounded to 1e-12) produced; history cases: BFS over all operation sequences '
-    'up to the depth bound from one shared base sequence, all earlier frames/sequences byte-compared after every operation'
+    'up to the depth bound from one shared base sequence, all earlier frames/sequences byte-compared after every operation; '
+    'units cases: cascade x representation (unit and dtype of chopper distances, query distances, windows, pulse), judged against the '
+    'all-metres run of the same cascade and the reference'
 )
 ASSUMPTIONS = [
     'neutron kinematics t = t0 + (m_n/h) * lambda * d with m_n, h as scipp exposes them; windows are closed intervals',
     'float evaluation of the pointwise predicate is exact outside a 1e-9 relative band around every window / pulse edge (points inside the band are not judged)',
-    'units: pulse in ms/angstrom, windows in s, distances in m (mixed distance units are outside the statement)',
+    'the statement is about physical quantities: a cascade may be written in any length / time unit and in integer dtype; loud refusals (UnitError for '
+    'chopper lists with mixed distance units, for windows not in seconds and for lookups in a sequence whose frames carry different distance units; DTypeError for '
+    'integer/float clashes) are counted, not flagged - a silently different answer is a violation',
     'windows of one chopper do not overlap in more than an endpoint',
 ]
 BOUND = {
     'quick': '4 pulses; 1 chopper: 5 distances x 19 window patterns; 2 choppers: 4 distance pairs (one at equal distance) x 13^2 patterns; '
     '3 choppers: 2 ladders x 3^3 patterns x 2 pulses; 5 choppers: all 5 distances x 3^5 patterns; per configuration the whole program family '
     '(all listing orders up to 4 choppers, 9 orders for 5), final distance 80 m; histories: 2 pulses x 4 bases x all sequences of 6 operations '
-    'up to depth 3 (<= 259 sequences each); completed',
+    'up to depth 3 (<= 259 sequences each); units: 2 pulses x 13 cascades (0-5 choppers, equal distances, chopper at 0 m) x 15 representations; completed',
     'thorough': '7 pulses x 5 distances x 22 patterns (1 chopper); 6 pulses x all 15 distance pairs x 19^2 patterns (2 choppers); 4 pulses x 6 ladders x 6^3 '
     '(3 choppers); 3 pulses x 2 ladders x 4^4 (4 choppers); 2 pulses x 2 ladders x 3^5 (5 choppers); same program family; '
-    'histories: 4 pulses x 6 bases x all sequences of 6 operations up to depth 4 (<= 1555 sequences each); completed',
+    'histories: 4 pulses x 6 bases x all sequences of 6 operations up to depth 4 (<= 1555 sequences each); units: quick set + every 1-chopper '
+    'configuration x 15 representations + 2 pulses x 15 pairs x 13^2 patterns x 5 key representations + 3 ladders x 3^3 x 15 + 3^5 x 5; completed',
 }
 REQUIRED_CLASSES = [
     'cut_const_lambda_edge_open',
@@ -117,6 +130,25 @@ REQUIRED_CLASSES = [
     'history_same_distance_chop',
     'history_zero_step',
     'history_recompared',
+    'units_same_as_metres',
+    'units_cm',
+    'units_mm',
+    'units_km',
+    'units_query_cm_mm',
+    'units_mixed',
+    'units_win_ms',
+    'units_pulse_s_nm',
+    'units_int_mm',
+    'units_int_m',
+    'units_int_query_mm',
+    'units_int_pulse_ms',
+    'units_index_final',
+    'units_index_between',
+    'units_index_at_chopper',
+    'units_index_before_first',
+    'units_choppers_0',
+    'units_choppers_2',
+    'units_choppers_5',
 ]
 
 ALPHA = clip.alpha_from(sc.constants.m_n.value, sc.constants.h.value)
@@ -231,6 +263,7 @@ def cases(tier):
         for lad in [DISTANCES] + ([(6.3, 6.3, 10.0, 23.7, 23.7)] if thorough else []):
             for ps in itertools.product(P_WIDE, repeat=5):
                 add(pu, list(zip(lad, ps, strict=True)))
+    out.extend(unit_cases(tier))
     # branching histories (each is a long case): spread evenly over the list so that they land in different work items
     hist = history_cases(tier)
     for i, h in enumerate(hist):
@@ -244,6 +277,12 @@ def cases(tier):
 
 def m(x):
     return sc.scalar(float(x), unit='m')
+
+
+def dist_m(x):
+    """Physical distance in metres of a frame (or of a distance variable), whatever unit / dtype it is stored in."""
+    d = x.distance if hasattr(x, 'distance') else x
+    return float(d.to(unit='m', dtype='float64').value)
 
 
 def make_chopper(distance, windows):
@@ -350,6 +389,7 @@ class Ctx:
         self.reported = set()
         self.snaps = {}  # id(frame) -> snapshot (the frame is kept alive by the snapshot)
         self.seqs = []
+        self.chopper_snaps = []
         # Frame.bounds() is exercised on the final frame of the 0/1-chopper cases and of the cases
         # whose choppers all use the same pattern (bounded number of calls per process, see check_regular)
         self.bounds_here = 'choppers' in case and len({p for _, p in case['choppers']}) <= 1
@@ -381,6 +421,9 @@ class Ctx:
             if id(f) not in self.snaps:
                 self.snaps[id(f)] = _snapshot(f, f'frame {k} of {label}')
 
+    def watch_chopper(self, ch):
+        self.chopper_snaps.append((ch, ch.time_open.values.tolist(), ch.time_close.values.tolist(), ch.distance.value, str(ch.distance.unit)))
+
     def verify(self, site, after):
         """No operation may change a frame or a sequence obtained earlier."""
         self.rec.evals += 1
@@ -391,6 +434,10 @@ class Ctx:
         for ci, (ch, wins) in enumerate(zip(self.rchops, self.windows, strict=False)):
             if ch.time_open.values.tolist() != [o for o, _ in wins] or ch.time_close.values.tolist() != [c for _, c in wins] or float(ch.distance.value) != float(self.mchops[ci].distance):
                 self.viol_once(site, 'chopper_modified', f'after {after}: the Chopper object {ci} passed in was changed')
+                raise Abort
+        for ch, o, c, dv, du in self.chopper_snaps:
+            if ch.time_open.values.tolist() != o or ch.time_close.values.tolist() != c or ch.distance.value != dv or str(ch.distance.unit) != du:
+                self.viol_once(site, 'chopper_modified', f'after {after}: a Chopper object passed in was changed')
                 raise Abort
         for snap in self.snaps.values():
             self.rec.validated += 1
@@ -545,7 +592,7 @@ def check_against_model(ctx, frame, applied, label, site, lattice=True, with_bou
     """(i) (ii) (iii): the frame is exactly the transmitted set of the applied choppers."""
     rec = ctx.rec
     rec.transitions += 0
-    D = float(frame.distance.to(unit='m').value)
+    D = dist_m(frame)
     arrays = frame_arrays(frame)
     ctx.digests.add(frame_digest(frame))
     rec.observe(label, [(t.tolist(), lam.tolist()) for t, lam in arrays])
@@ -722,6 +769,8 @@ def run_case(case, rec):
     try:
         if case.get('kind') == 'history':
             _run_history(ctx, case, rec)
+        elif case.get('kind') == 'units':
+            _run_units(ctx, case, rec)
         else:
             _run_cascade(ctx, case, rec)
     except Abort:
@@ -794,7 +843,7 @@ def _run_cascade(ctx, case, rec):
         if not (frames_eq(can[k], inc[k]) and same_vertices(ctx, frame_arrays(can[k]), frame_arrays(inc[k]), dists[k - 1] if k else 0.0)):
             ctx.viol_once('FrameSequence.chop', 'one_call_vs_incremental', f'frame {k} of chop(all) differs from chopping one by one')
         rec.validated += 1
-        fd = float(can[k].distance.to(unit='m').value)
+        fd = dist_m(can[k])
         want_d = 0.0 if k == 0 else dists[k - 1]
         if fd != want_d:
             ctx.viol_once('FrameSequence.chop', 'frame_distance', f'frame {k} has distance {fd}, expected {want_d}')
@@ -820,7 +869,7 @@ def _run_cascade(ctx, case, rec):
         ctx.digests.add(frame_digest(frame))
         if regular:
             check_regular(ctx, frame, arr, label)
-        fd = float(frame.distance.to(unit='m').value)
+        fd = dist_m(frame)
         if fd != FINAL:
             ctx.viol_once(site, 'frame_distance', f'{label}: distance {fd}')
             return False
@@ -961,7 +1010,7 @@ def _run_cascade(ctx, case, rec):
             except Exception as e:  # noqa: BLE001 - every mark lies at or behind the source frame
                 ctx.viol_once('FrameSequence.__getitem__', 'raises', f'{sname}[{d} m] raises {type(e).__name__}: {e}')
                 continue
-            fd = float(f.distance.to(unit='m').value)
+            fd = dist_m(f)
             if fd != d:
                 ctx.viol_once('FrameSequence.__getitem__', 'frame_distance', f'{sname}[{d} m] has distance {fd}')
                 continue
@@ -1094,7 +1143,7 @@ def _run_history(ctx, case, rec):
                 if len(new) != len(new_meta) or len(node['seq']) != len(node['meta']):
                     ctx.viol_once(site, 'frame_count', f'{path}: {len(new)} frames, expected {len(new_meta)}; parent has {len(node["seq"])}')
                     raise Abort
-                fd = float(new[-1].distance.to(unit='m').value)
+                fd = dist_m(new[-1])
                 if fd != new_meta[-1][0]:
                     ctx.viol_once(site, 'frame_distance', f'{path}: last frame at {fd} m, expected {new_meta[-1][0]} m')
                 check_against_model(ctx, new[-1], new_meta[-1][1], f'{path} last frame', site, lattice=True)
@@ -1113,7 +1162,7 @@ def _run_history(ctx, case, rec):
             if id(f) in seen:
                 continue
             seen.add(id(f))
-            fd = float(f.distance.to(unit='m').value)
+            fd = dist_m(f)
             if fd != d:
                 ctx.viol_once('FrameSequence.chop', 'frame_distance', f'{node["path"]}: frame {k} at {fd} m, expected {d} m')
                 continue
@@ -1121,3 +1170,274 @@ def _run_history(ctx, case, rec):
     ctx.verify('FrameSequence.chop', 'the final re-comparison')
     rec.cls('history_recompared', len(seen))
     rec.nontrivial += 1
+
+
+# ---------------------------------------------------------------------------------------
+# unit / dtype representation of the same physical cascade
+#
+# A representation says in which unit (and dtype) each quantity is handed to the library:
+#   cd  chopper distances: one spec for all choppers, or a list cycled over the choppers (mixed units)
+#   qd  the distances passed to propagate_to / seq[distance] (every listed spec is used)
+#   tw  chopper windows;  pt / pl  pulse time / wavelength
+# spec = 'unit' or 'unit:int' (int64 where the number is whole in that unit, float64 otherwise).
+# The oracle is the same exact reference, evaluated on the physical (SI) quantities, plus the differential against the
+# all-metres representation of the same cascade; a frame's distance must be the physical distance.
+
+REPS = {
+    'cm': {'cd': 'cm', 'qd': ['m', 'cm']},
+    'mm': {'cd': 'mm', 'qd': ['mm', 'm']},
+    'km': {'cd': 'km', 'qd': ['m', 'km']},
+    'query_cm_mm': {'cd': 'm', 'qd': ['cm', 'mm']},
+    'mixed': {'cd': ['cm', 'm', 'mm', 'km'], 'qd': ['m']},
+    'win_ms': {'tw': 'ms'},
+    'win_us': {'tw': 'us', 'cd': 'cm', 'qd': ['m']},
+    'pulse_s_nm': {'pt': 's', 'pl': 'nm'},
+    'pulse_us_nm': {'pt': 'us', 'pl': 'nm', 'cd': 'mm', 'qd': ['cm']},
+    'int_mm': {'cd': 'mm:int', 'qd': ['mm:int']},
+    'int_cm': {'cd': 'cm:int', 'qd': ['m:int', 'cm:int']},
+    'int_m': {'cd': 'm:int', 'qd': ['m:int']},
+    'int_query_mm': {'cd': 'm', 'qd': ['mm:int']},
+    'int_pulse_ms': {'pt': 'ms:int'},
+    'int_pulse_us': {'pt': 'us:int', 'cd': 'mm', 'qd': ['mm']},
+}
+REP_DEFAULT = {'cd': 'm', 'qd': ['m'], 'tw': 's', 'pt': 'ms', 'pl': 'angstrom'}
+REPS_KEY = ['cm', 'mm', 'query_cm_mm', 'int_mm', 'pulse_us_nm']
+
+UNIT_CASCADES = [
+    [],
+    [(0.0, 'open')],
+    [(6.3, 'both')],
+    [(10.0, 'shared')],
+    [(60.0, 'close')],
+    [(0.0, 'open'), (6.3, 'close')],
+    [(6.3, 'open'), (6.3, 'close')],
+    [(6.3, 'shared'), (23.7, 'both')],
+    [(10.0, 'unsorted'), (60.0, 'open')],
+    [(0.0, 'close'), (10.0, 'open'), (10.0, 'shared')],
+    [(6.3, 'open'), (10.0, 'close'), (23.7, 'shared')],
+    [(0.0, 'open'), (6.3, 'close'), (10.0, 'shared'), (23.7, 'open')],
+    [(0.0, 'open'), (6.3, 'close'), (10.0, 'shared'), (23.7, 'open'), (60.0, 'close')],
+]
+
+
+def unit_cases(tier):
+    out = []
+
+    def add(pu, chops, rname):
+        out.append({'kind': 'units', 'pulse': pu, 'choppers': [[d, p] for d, p in chops], 'rep': rname})
+
+    for pu in ['ess', 'wide12']:
+        for chops in UNIT_CASCADES:
+            for rname in REPS:
+                add(pu, chops, rname)
+    if tier == 'thorough':
+        pulses = [p for p in PULSES if p != 'odd']
+        for pu in [*pulses, 'odd']:
+            for d in DISTANCES:
+                for p in P_ALL + P_EXTRA:
+                    for rname in REPS:
+                        add(pu, [(d, p)], rname)
+        pairs = [(a, b) for i, a in enumerate(DISTANCES) for b in DISTANCES[i:]]
+        for pu in ['ess', 'wide12']:
+            for a, b in pairs:
+                for p1 in P_QUICK2:
+                    for p2 in P_QUICK2:
+                        for rname in REPS_KEY:
+                            add(pu, [(a, p1), (b, p2)], rname)
+        for pu in ['ess', 'wide12']:
+            for lad in [(6.3, 10.0, 23.7), (0.0, 10.0, 10.0), (6.3, 6.3, 6.3)]:
+                for ps in itertools.product(P_WIDE, repeat=3):
+                    for rname in REPS:
+                        add(pu, list(zip(lad, ps, strict=True)), rname)
+        for ps in itertools.product(P_WIDE, repeat=5):
+            for rname in REPS_KEY:
+                add('ess', list(zip(DISTANCES, ps, strict=True)), rname)
+    return out
+
+
+def _spec(spec):
+    unit, _, kind = spec.partition(':')
+    return unit, kind == 'int'
+
+
+def qty(value, from_unit, spec):
+    """The physical quantity value*from_unit written in the unit / dtype of spec (numbers rounded to 12 digits so that
+    e.g. 6.3 m is the literal 630.0 cm); int64 only where the number is whole."""
+    unit, want_int = _spec(spec)
+    v = float(f'{sc.scalar(float(value), unit=from_unit).to(unit=unit).value:.12g}')
+    if want_int and v == round(v):
+        return sc.scalar(int(round(v)), unit=unit)
+    return sc.scalar(v, unit=unit)
+
+
+def _run_units(ctx, case, rec):
+    rep = {**REP_DEFAULT, **REPS[case['rep']]}
+    rname = case['rep']
+    spec = case['choppers']
+    n = len(spec)
+    dists = [float(d) for d, _ in spec]
+    rec.cls(f'units_{rname}')
+    rec.cls(f'units_choppers_{n}')
+    cds = rep['cd'] if isinstance(rep['cd'], list) else [rep['cd']]
+    cd_of = [cds[i % len(cds)] for i in range(n)]
+    tw_unit, _ = _spec(rep['tw'])
+    mixed_cd = len({_spec(c)[0] for c in cd_of}) > 1
+    any_int = any(_spec(x)[1] for x in [*cd_of, *rep['qd'], rep['pt'], rep['pl']])
+    sub = {'rep': rname}
+
+    # ---- the cascade in the all-metres representation: windows resolved as in the cascade cases, frames = baseline
+    ctx.watch(ctx.seq0, 'from_source_pulse(...) [all metres]')
+    base = ctx.seq0
+    for ci, (d, pat) in enumerate(spec):
+        arriving = base[-1].propagate_to(m(d))
+        wins = resolve_windows(ctx, d, pat, arriving)
+        ctx.windows.append(wins)
+        ctx.mchops.append(clip.Chop(float(d), wins))
+        ctx.rchops.append(make_chopper(d, wins))
+        base = base.chop([ctx.rchops[-1]])
+        rec.transitions += 2
+    base_final = base.propagate_to(m(FINAL))[-1]
+    ctx.watch(base, 'all-metres cascade')
+    allc = list(range(n))
+
+    # ---- the same physical objects in the representation under test
+    t0, t1, l0, l1 = PULSES[case['pulse']]
+    pulse_args = dict(
+        time_min=qty(t0, 'ms', rep['pt']),
+        time_max=qty(t1, 'ms', rep['pt']),
+        wavelength_min=qty(l0, 'angstrom', rep['pl']),
+        wavelength_max=qty(l1, 'angstrom', rep['pl']),
+    )
+    choppers = []
+    for ci, (d, _) in enumerate(spec):
+        wins = ctx.windows[ci]
+        ch = cc.Chopper(
+            distance=qty(d, 'm', cd_of[ci]),
+            time_open=sc.array(dims=['slit'], values=[o for o, _ in wins], unit='s').to(unit=tw_unit),
+            time_close=sc.array(dims=['slit'], values=[c for _, c in wins], unit='s').to(unit=tw_unit),
+        )
+        ctx.watch_chopper(ch)
+        choppers.append(ch)
+
+    def refusal(e, what):
+        """Loud refusals the statement does not forbid (reading chosen): mixed chopper units in one list, windows not in
+        seconds, lookups in a sequence whose frames carry different distance units, integer/float dtype clashes."""
+        if isinstance(e, sc.UnitError) and (mixed_cd or tw_unit != 's' or what == 'index_mixed_frames'):
+            rec.cls('refused_mixed_chopper_units' if mixed_cd and what == 'chop' else ('refused_window_unit' if tw_unit != 's' and what == 'chop' else 'refused_lookup_mixed_frame_units'))
+            return True
+        if isinstance(e, sc.DTypeError) and any_int:
+            rec.cls('refused_int_dtype')
+            return True
+        return False
+
+    def judge(frame, applied, want_d, label, site, base_frame=None, lattice=False):
+        """distance reported = physical distance; same set as the all-metres representation; same set as the reference.
+        The case stops at its first violation: everything after it is a consequence of the same wrong conversion."""
+        fd = dist_m(frame)
+        rec.evals += 1
+        before = rec.nviol
+        if abs(fd - want_d) > 1e-12 * max(1.0, abs(want_d)):
+            ctx.viol_once(site, 'frame_distance', f'{label}: the frame reports {frame.distance.value} {frame.distance.unit} ({frame.distance.dtype}) = {fd!r} m, the physical distance is {want_d!r} m', **sub)
+            raise Abort
+        if base_frame is None:  # the all-metres cascade behind the same choppers, brought to the same place by the real code
+            base_frame = base[len(applied)].propagate_to(m(want_d))
+        rec.validated += 1
+        arr = frame_arrays(frame)
+        barr = frame_arrays(base_frame)
+        if same_set(ctx, arr, barr, want_d, BAND):
+            rec.cls('units_same_as_metres')
+        else:
+            ctx.viol_once(
+                site,
+                'representation_dependence',
+                f'{label}: not the same set of neutrons as the all-metres representation of the same physical cascade: '
+                f'{[(t.tolist(), w.tolist()) for t, w in nondegenerate(ctx, arr)][:2]} vs {[(t.tolist(), w.tolist()) for t, w in nondegenerate(ctx, barr)][:2]}',
+                **sub,
+            )
+            raise Abort
+        check_against_model(ctx, frame, applied, label, site, lattice=lattice)
+        if rec.nviol > before:
+            raise Abort
+
+    try:
+        seq = cc.FrameSequence.from_source_pulse(**pulse_args)
+    except Exception as e:  # noqa: BLE001
+        if refusal(e, 'pulse'):
+            return
+        raise
+    ctx.watch(seq, f'from_source_pulse({rep["pt"]}, {rep["pl"]})')
+    judge(seq[0], [], 0.0, 'source frame', 'FrameSequence.from_source_pulse', base_frame=base[0], lattice=True)
+
+    def run(label, what, fn):
+        rec.transitions += 1
+        try:
+            out = fn()
+        except Exception as e:  # noqa: BLE001
+            if refusal(e, what):
+                return None
+            ctx.viol_once(f'FrameSequence.{"__getitem__" if what.startswith("index") else what}', 'raises', f'{label} raises {type(e).__name__}: {e}', **sub)
+            return None
+        ctx.verify('FrameSequence.chop', label)
+        return out
+
+    # ---- one call, one by one, reversed listing order
+    can = run(f'chop({cd_of})', 'chop', lambda: seq.chop(choppers))
+    if can is None:
+        rec.cls('units_cascade_refused')
+        return
+    ctx.watch(can, f'chop(all) [{rname}]')
+    if len(can) != n + 1:
+        ctx.viol_once('FrameSequence.chop', 'frame_count', f'{len(can)} frames for {n} choppers', **sub)
+        return
+    for k in range(1, n + 1):
+        judge(can[k], allc[:k], dists[k - 1], f'frame {k} of chop(all) [{rname}]', 'FrameSequence.chop', base_frame=base[k], lattice=(k == n))
+    inc = seq
+    for ci, ch in enumerate(choppers):
+        inc = run(f'chop one by one, chopper {ci}', 'chop', lambda inc=inc, ch=ch: inc.chop([ch]))
+        if inc is None:
+            break
+        judge(inc[-1], allc[: ci + 1], dists[ci], f'chopper {ci} applied alone [{rname}]', 'FrameSequence.chop', base_frame=base[ci + 1])
+    if n >= 2:
+        r = run('chop(reversed list)', 'chop', lambda: seq.chop(choppers[::-1]))
+        if r is not None and len(r) == n + 1:
+            judge(r.propagate_to(m(FINAL))[-1], allc, FINAL, f'reversed listing order [{rname}]', 'FrameSequence.chop', base_frame=base_final)
+
+    # ---- distances handed to propagate_to / [distance] in every query representation
+    ud = sorted(set(dists))
+    marks = [(FINAL, 'final')]
+    if ud and ud[0] > 0:
+        marks.append((ud[0] / 2, 'before_first'))
+    for i, d in enumerate(ud):
+        marks.append(((d + (ud[i + 1] if i + 1 < len(ud) else FINAL)) / 2, 'between' if i + 1 < len(ud) else 'beyond'))
+        marks.append((d, 'at_chopper'))
+    dl = dists[-1] if n else 0.0
+    for qs in rep['qd']:
+        q_final = qty(FINAL, 'm', qs)
+        fin = run(f'propagate_to({q_final.value} {q_final.unit})', 'propagate_to', lambda q=q_final: can.propagate_to(q))
+        if fin is not None:
+            ctx.watch(fin, f'chop(all).propagate_to({qs}) [{rname}]')
+            judge(fin[-1], allc, FINAL, f'chop(all).propagate_to({q_final.value} {q_final.unit} {q_final.dtype})[-1] [{rname}]', 'FrameSequence.propagate_to', base_frame=base_final, lattice=True)
+        q_mid = qty((dl + FINAL) / 2, 'm', qs)
+        two = run(f'propagate_to({q_mid.value} {q_mid.unit}).propagate_to({FINAL} m)', 'propagate_to', lambda q=q_mid: can.propagate_to(q).propagate_to(m(FINAL)))
+        if two is not None:
+            judge(two[-1], allc, FINAL, f'propagate_to({q_mid.value} {q_mid.unit} {q_mid.dtype}).propagate_to({FINAL} m)[-1] [{rname}]', 'FrameSequence.propagate_to', base_frame=base_final)
+            judge(two[-2], allc, (dl + FINAL) / 2, f'propagate_to({q_mid.value} {q_mid.unit} {q_mid.dtype})[-1] [{rname}]', 'FrameSequence.propagate_to')
+        for d, label in marks:
+            q = qty(d, 'm', qs)
+            applied = [i for i in allc if dists[i] <= d]
+            if label == 'at_chopper':
+                # the frame *at* a chopper is only defined where both conversions give the same float
+                tied = [i for i in allc if dists[i] == d]
+                if any(dist_m(choppers[i].distance) != dist_m(q) for i in tied) or any(dist_m(choppers[i].distance) != dist_m(choppers[tied[0]].distance) for i in tied):
+                    rec.cls('units_at_chopper_dontcare')
+                    continue
+            for sq, sname, what in ((can, 'chop(all)', 'index'), (fin, f'chop(all).propagate_to({qs})', 'index_mixed_frames' if _spec(qs)[0] != 'm' or _spec(cd_of[0] if cd_of else 'm')[0] != 'm' else 'index')):
+                if sq is None:
+                    continue
+                f = run(f'{sname}[{q.value} {q.unit}]', what, lambda sq=sq, q=q: sq[q])
+                if f is None:
+                    continue
+                judge(f, applied, d, f'{sname}[{q.value} {q.unit} {q.dtype}] [{rname}]', 'FrameSequence.__getitem__', lattice=(sq is can and label in ('final', 'between')))
+                rec.cls(f'units_index_{label}')
+    if n:
+        rec.nontrivial += 1
